@@ -243,7 +243,7 @@ Lemma value_range_fact (a : arr) (b e : vec3 IZ) : value_range_of_facts gen_arr 
 Proof. reflexivity. Qed.
 
 Lemma value_range_shape_fact :
-  f_vr_init gen_arr = VRInitEmpty /\ f_vr_loop_ok gen_arr = true /\ f_vr_full_ok gen_arr = true /\
+  f_vr_init gen_arr = VRInitEmpty /\ f_vr_loop_ok gen_arr = true /\ f_vr_full_ok gen_arr = true /\ f_vr_no_override gen_arr = true /\
   f_rg_default_empty gen_arr = true /\ f_rg_extend_minmax gen_arr = true /\ f_rg_empty_def gen_arr = true.
 Proof. repeat split; reflexivity. Qed.
 
